@@ -500,6 +500,17 @@ func TestForkOfferSequence(t *testing.T) {
 				if lastRefused {
 					refusedThenOffer++
 				}
+				// A verdict that rested on the shape of the list RELATIVE TO THE NODE'S CHAIN at the time of the first offer
+				// (a list whose first block did not connect) does not carry over once the node has moved: if the first
+				// block's parent is on the node's chain now, the same list is an ordinary continuation. No verdict then.
+				if last.mustRefuse == "first block not on the common ancestor" && len(last.list) > 0 {
+					first := last.list[0].Block
+					if ph := own.Chain.GetBlockHeaderByHeight(first.Height() - 1); ph != nil && ph.Hash() == first.Header.ParentHash() {
+						evid.Count("seq.offer.repeat_skipped.list_connects_to_the_node_now")
+						advance()
+						break
+					}
+				}
 				evid.Count("seq.offer.repeated")
 				if present("repeat", branches[last.j], last.part, append([]types.BlockBundle{}, last.list...), last.mustRefuse, false) {
 					cur = last.j
